@@ -41,7 +41,11 @@ where
         loop {
             match core_iter.next() {
                 Some(x) => self.values[i] = Some(x),
-                None => break,
+                None => {
+                    // the wrapped iterator has returned None: it must not be polled again
+                    iter.mark_completed();
+                    break;
+                }
             }
 
             i += 1;
